@@ -17,6 +17,25 @@ var vRaceInputs = []string{
 	`123456789012345678901234567890e-5`, `4.9e-324`, ` true `, `null`, `[[[[[[1]]]]]]`,
 }
 
+// deeply nested and long documents: caches, pools and retained stacks tend to switch on at a size or depth threshold
+func init() {
+	rep := func(s string, n int) string {
+		b := make([]byte, 0, len(s)*n)
+		for i := 0; i < n; i++ {
+			b = append(b, s...)
+		}
+		return string(b)
+	}
+	vRaceInputs = append(vRaceInputs,
+		rep("[", 300)+"1"+rep("]", 300),
+		rep(`{"a":`, 300)+`"x\n"`+rep("}", 300),
+		rep("[", 2500)+rep("]", 2500),
+		"["+rep(`{"k":[1,"a\tb"]},`, 1500)+"0]",
+		`"`+rep("abcdefgh", 600)+`\u00e9"`,
+		rep("[[", 150)+`{"a":[`+rep("1,", 700)+"2]}"+rep("]]", 150),
+	)
+}
+
 func vRaceOne(in string, own *Buffer) string {
 	d := []byte(in)
 	out := ""
